@@ -37,7 +37,9 @@ def real_ifmr(feh):
 def gen_layout(rng):
     nseg = rng.choice([1, 2, 3, 3, 4, 5])
     lo = rng.choice([0.05, 0.08, 0.1, 0.1, 0.2, 0.5])
-    hi = rng.choice([50.0, 100.0, 100.0, 120.0, 150.0])
+    hi = rng.choice([50.0, 100.0, 100.0, 120.0, 150.0, 1.0, 0.8, 1.2])      # incl. grids ending below the heaviest WD
+    if hi < 2:
+        lo = min(lo, 0.1)
     inner = sorted(10 ** rng.uniform(math.log10(lo * 1.2), math.log10(hi / 1.2)) for _ in range(nseg - 1))
     if rng.random() < 0.3 and nseg >= 3:
         inner[0], inner[1] = 0.5, 1.0
@@ -191,6 +193,9 @@ def run(chk):
             mbins, ifm = build(lay)
         except Exception as e:  # noqa
             ifm = real_ifmr(lay["ifmr"][1]) if lay["ifmr"][0] == "real" else stub_ifmr(lay["ifmr"][1], lay["ifmr"][2])
+            if isinstance(e, ValueError) and "cannot be higher than upper bound" in str(e) and isinstance(lay["nbins"], dict):
+                chk.count("dict form on a grid that ends below the lightest BH: documented ValueError, not a valid layout")
+                continue
             chk.fail("construction of a valid layout does not raise", lay, dict(error=type(e).__name__, msg=str(e)[:100]),
                      construction_error=type(e).__name__, form=lay["form"],
                      first_break_above_wd=bool(lay["breaks"][0] > ifm.WD_mf.upper))
